@@ -63,13 +63,46 @@ def tie_world(rng):
         world["genes"] = {(raw if name == old else name): gene for name, gene in world["genes"].items()}
         if old in world["hits"]:
             world["hits"] = {(clean if name == old else name): hs for name, hs in world["hits"].items()}
-    return {"kind": "world", "world": world, "perm_seed": rng.randrange(1 << 30)}
+    case = {"kind": "world", "world": world, "perm_seed": rng.randrange(1 << 30)}
+    if rng.random() < 0.4:
+        # a subregion that is in the record before rule detection runs (as CASSIS or a sideloaded area is): the hits of
+        # its genes are reported even where no protocluster forms
+        case["earlier_subregion"] = [0, world["L"]]
+    return case
 
 
 ILLEGAL_IN_NAMES = set("!\"#$%&()*+,:; \r\n\t=>?@[]^`'{|}/ ")
 
 
+def wrap_merge_layout(rng):
+    """ a circular record whose last stretch of areas (two or three neighbouring protoclusters) reaches the area lying
+        over the origin, with an unrelated area in between: region creation joins the last stretch to the first """
+    n_genes, glen, step = 12, 60, 100
+    length = n_genes * step
+    genes = [{"name": f"g{i}", "loc": {"parts": [[i * step + 10, i * step + 10 + glen]], "strand": rng.choice([1, -1])},
+              "core": []} for i in range(n_genes)]
+    products = list(PRODUCTS)
+    rng.shuffle(products)
+    plan = [(11, 2, 0), (rng.choice([4, 5]), 1, 0), (9, 1, 1), (10, 1, 1)]
+    if rng.random() < 0.5:
+        plan.append((8, 1, 1))
+    rng.shuffle(plan)
+    protos = []
+    for first, ncore, nb in plan:
+        core_start, core_len, nb_len = first * step + 10, (ncore - 1) * step + glen, nb * step
+        core = ring.arc_to_intervals(core_start, core_len, length)
+        extent = ring.arc_to_intervals((core_start - nb_len) % length, core_len + 2 * nb_len, length)
+        product = products.pop()
+        genes[first % n_genes]["core"].append(product)
+        protos.append({"first": first, "ncore": ncore, "nb": nb, "product": product,
+                       "core": [list(c) for c in core], "extent": [list(e) for e in extent]})
+    return {"kind": "layout", "L": length, "circular": True, "genes": genes, "protoclusters": protos,
+            "perm_seed": rng.randrange(1 << 30), "shape": "last-stretch-joins-the-area-over-the-origin"}
+
+
 def tie_layout(rng):
+    if rng.random() < 0.2:
+        return wrap_merge_layout(rng)
     circular = rng.random() < 0.5
     n_genes = rng.choice([6, 8, 10, 12])
     glen, gap = 60, 40
